@@ -14,7 +14,15 @@ RULE = ("stream G: seeded random derivations of the dialect grammar of DESIGN.md
         "set_field, fields.append / insert / clear / reverse, pop, del, Field.key / .value, block key / type / value / comment setters, "
         "parser metadata, Library.remove / add, blocks.clear) before the next parse - of another document or of the same text again; "
         "after every parse and every batch of edits the blocks the caller did not touch, of this and of every earlier result, must still "
-        "equal their ground truth (what a caller does with one result, or with one block, never shows up in another)")
+        "equal their ground truth (what a caller does with one result, or with one block, never shows up in another). "
+        "stream S: SIZE-scaled derivations of the same grammar with constructive ground truth, one dimension of the document at a "
+        "time taken to n = 64..999, 1000..5000 (quick) and up to 20000 (thorough): brace nesting depth n inside a field value, inside "
+        "a quoted piece, inside a @string value, a @preamble and a @comment body (bare, with text or a line break on every level); "
+        "n '#'-joined pieces; n sibling brace groups; n fields in one entry; n blocks of mixed kinds; values of n lines / n digits; "
+        "whitespace runs of length n at every place the grammar allows ws or hws; key, type, field and string names of n characters; "
+        "n escaped delimiters; n quote characters inside braces; free text of n lines - each followed by further fields and blocks "
+        "(the scanner must be in step again, start lines must count every line), parsed directly and from a caller that is already "
+        "300 or 600 frames deep (interpreter recursion limit 1000); implementation = model (op 132) = ground truth")
 TRUSTED = ["the ground truth is produced by the generator (harness/gens_split.py) from the derivation, not by parsing"]
 ASSUMPTIONS = ["documents outside the dialect (boundaries B1-B5 of DESIGN.md section 3) are not claimed by this property"]
 
@@ -36,6 +44,8 @@ def generate(rng, tier):
     seqs.sort(key=lambda q: (len(q["steps"]), sum(len(d["text"]) for d in q["docs"])))
     for q in seqs:
         cases.append({"stream": "Q", "input": q})
+    for name, stack, text, items in gen_scaled(rng, tier):
+        cases.append({"stream": "S", "input": {"text": text, "items": items, "name": name, "stack": stack}})
     return cases
 
 
@@ -56,9 +66,14 @@ def impl(case):
         if not SC.lower_ok(text):
             rec["skip"] = True
         return rec
-    rec, r = SC.base_record(text)
+    name = case["input"].get("name")
+    if name is None:
+        rec, r = SC.base_record(text)
+    else:
+        rec, r = scaled_record(text, case["input"].get("stack", 0))
     if r[0] == "exc":
-        rec["oracle"] = {"ok": False, "detail": "parse raised " + r[2]}
+        rec["oracle"] = {"ok": False, "detail": "parse raised " + r[2] + (" (size-scaled document %s, parse_string called %d frames deep)"
+                                                                          % (name, case["input"].get("stack", 0)) if name else "")}
         rec["nontrivial"] = True
         return rec
     lib = r[1]
@@ -68,13 +83,19 @@ def impl(case):
     if ok:
         # Splitter(text).split() and parse_string(text, parse_stack=[]) are the same thing
         import bibtexparser
-        lib2 = bibtexparser.splitter.Splitter(text).split()
-        if SC.content(lib2) != SC.content(lib):
+        import implutil
+        r2 = implutil.guarded(lambda: bibtexparser.splitter.Splitter(text).split())
+        if r2[0] == "exc":
+            ok, detail = False, "Splitter(text).split() raised " + r2[2]
+        elif SC.content(r2[1]) != SC.content(lib):
             ok, detail = False, "Splitter.split() differs from parse_string with an empty stack"
     rec["oracle"] = {"ok": ok, "detail": detail}
     rec["nontrivial"] = len(items) >= 2 or any(it["kind"] == "entry" and len(it["fields"]) >= 2 for it in items)
     rec["key"] = text if len(text) < 300 else str(hash(text))
     rec["tags"] = sorted(set(it["kind"] for it in items)) or ["empty"]
+    if name:
+        rec["tags"] = ["scaled:" + name.split("/")[0]]
+        rec["nontrivial"] = True
     return rec
 
 
@@ -373,3 +394,320 @@ def impl_sequence(case):
     rec["oracle"] = {"ok": True, "detail": ""}
     rec["summary"] = " ".join(summ)
     return rec
+
+
+# ====================================================================== stream S: size-scaled documents of the dialect
+# The grammar puts no bound on nesting depth, on the number of pieces, fields, blocks or lines, or on the length of a name or of
+# a whitespace run.  Each family takes ONE of these dimensions to n and keeps the rest of the document ordinary, with fields and
+# blocks after the large part (so a scanner that lost step, or a line counter that lost a line, shows).  Ground truth is
+# constructed with the text, exactly as in gens_split.gen_doc.
+S_SMALL = [64, 127, 200, 255, 256, 257, 300, 400, 511, 513, 640, 777, 900, 999]
+S_BIG = [1000, 1001, 1023, 1025, 1500, 2049, 3001, 5000]
+S_HUGE = [10001, 20000]
+S_GAPS = ["\n", "\n", "\n\n", " ", "\r\n", "\n \n", "\t", "\x0c\n"]
+S_TYPES = ["article", "Article", "BOOK", "misc", "inProceedings", "x_1"]
+
+
+class _Doc:
+    """Text and ground truth of a document, built side by side."""
+
+    def __init__(self, rng, lead=""):
+        self.rng, self.parts, self.nl, self.items = rng, [], 0, []
+        self.free_last = False
+        self.add(lead)
+
+    def add(self, s):
+        self.parts.append(s)
+        self.nl += s.count("\n")
+
+    def gap(self, g=None):
+        self.add(self.rng.choice(S_GAPS) if g is None else g)
+
+    def _item(self, start, line0, item):
+        item["raw"], item["line"] = "".join(self.parts[start:]), line0
+        self.items.append(item)
+        self.free_last = item["kind"] == "freetext"
+
+    def entry(self, typ, key, fields, hws="", w1="", w2="", bare=False, trailing=False, close_ws=""):
+        """fields: (pre, name, mid1, mid2, value, post) - ws* name ws* '=' ws* value ws*"""
+        start, line0 = len(self.parts), self.nl
+        self.add("@" + typ + hws + "{" + w1 + key + w2)
+        out = []
+        if not (bare and not fields):
+            self.add(",")
+            for i, (pre, name, mid1, mid2, val, post) in enumerate(fields):
+                self.add(pre + name + mid1)
+                out.append([name, val, self.nl])
+                self.add("=" + mid2 + val + post)
+                if i < len(fields) - 1:
+                    self.add(",")
+            if not fields:
+                self.add(close_ws)
+            elif trailing:
+                self.add("," + close_ws)
+        self.add("}")
+        self._item(start, line0, {"kind": "entry", "type": typ.lower(), "key": key, "fields": out})
+
+    def string(self, name, val, kw="string", hws="", w1="", w2=" ", w3=" ", w4=""):
+        start, line0 = len(self.parts), self.nl
+        self.add("@" + kw + hws + "{" + w1 + name + w2 + "=" + w3 + val + w4 + "}")
+        self._item(start, line0, {"kind": "string", "key": name, "value": val})
+
+    def preamble(self, body, kw="preamble", hws=""):
+        start, line0 = len(self.parts), self.nl
+        self.add("@" + kw + hws + "{" + body + "}")
+        self._item(start, line0, {"kind": "preamble", "value": body})
+
+    def comment(self, body, kw="comment", hws=""):
+        start, line0 = len(self.parts), self.nl
+        self.add("@" + kw + hws + "{" + body + "}")
+        self._item(start, line0, {"kind": "comment", "comment": body.strip()})
+
+    def freetext(self, raw):
+        start, line0 = len(self.parts), self.nl
+        self.add(raw)
+        self._item(start, line0, {"kind": "freetext", "comment": raw})
+
+    def small(self, tag):
+        """an ordinary block (before / after the large part)"""
+        rng = self.rng
+        k = rng.randrange(6 if not self.free_last else 5)
+        if k == 0:
+            self.entry(rng.choice(S_TYPES), "after" + tag, [(" ", "title", " ", " ", '"n {{m}} o" # jan', ""), ("\n  ", "year", "", "", "2020", "\n")])
+        elif k == 1:
+            self.entry(rng.choice(S_TYPES), "bare" + tag, [], bare=True)
+        elif k == 2:
+            self.string("s" + tag, rng.choice(['"x"', "{a {b} c}", "jan # {x}"]), kw=rng.choice(["string", "String"]))
+        elif k == 3:
+            self.preamble(rng.choice(['"\\newcommand{\\x}{y}"', "{a} # b", ""]))
+        elif k == 4:
+            self.comment(rng.choice(["after " + tag, "a {b} c", "k = {v},"]), kw=rng.choice(["comment", "Comment"]))
+        else:
+            self.freetext(rng.choice(["% a remark " + tag, "some free text, with = marks", "x"]))
+
+    def done(self):
+        return "".join(self.parts), self.items
+
+
+def _nest(rng, n):
+    """a brace group nested n deep (n >= 1), as one braced piece: `{`*n ... `}`*n with one of several fillings"""
+    inner = rng.choice(["x", "x, y = z", "", 'a "b" c', "\\{", "deep text"])
+    style = rng.randrange(5)
+    if style == 0:
+        return "{" * n + inner + "}" * n
+    if style == 1:                         # text on every level, before and behind the nested group
+        return "{a" * n + inner + "b}" * n
+    if style == 2:                         # a line break on every level
+        return "{\n" * n + inner + "\n}" * n
+    if style == 3:                         # delimiters on every level
+        return "{," * n + inner + "=}" * n
+    return "{" * n + inner + "}" * (n - 1) + "{}" * 3 + "}"      # siblings at the outermost level after the deep one
+
+
+def _around(rng, deep):
+    """the deep / long value among ordinary fields, at a random position"""
+    fs = [(" ", "year", " ", " ", "2020", ""), ("\n  ", "note", " ", " ", '"n {{m}} o" # jan', ""), ("\n ", "a", "", "", "{b, c = d}", " ")]
+    rng.shuffle(fs)
+    fs = fs[:rng.randint(0, 3)]
+    fs.insert(rng.randint(0, len(fs)), (rng.choice([" ", "\n  "]), "title", rng.choice(["", " "]), rng.choice(["", " "]), deep, rng.choice(["", "\n"])))
+    return fs
+
+
+def _S_nest_field(rng, n, d):
+    d.entry(rng.choice(S_TYPES), "key%d" % n, _around(rng, _nest(rng, n)), trailing=rng.random() < 0.5, close_ws="\n")
+
+
+def _S_nest_in_concat(rng, n, d):
+    deep = rng.choice(["jan # ", '"q" # ', "{x} # "]) + _nest(rng, n) + rng.choice(["", " # feb", ' # "r"', "#{y}"])
+    d.entry(rng.choice(S_TYPES), "cat%d" % n, _around(rng, deep))
+
+
+def _S_nest_quoted(rng, n, d):
+    inner = rng.choice(["x", "x, y = z", "", "deep text"])
+    deep = '"' + rng.choice(["", "a "]) + "{" * n + inner + "}" * n + rng.choice(["", " b"]) + '"'
+    d.entry(rng.choice(S_TYPES), "q%d" % n, _around(rng, deep))
+
+
+def _S_nest_string(rng, n, d):
+    d.string("deep%d" % n, _nest(rng, n), kw=rng.choice(["string", "String", "STRING"]))
+
+
+def _S_nest_preamble(rng, n, d):
+    d.preamble(_nest(rng, n)[1:-1] if n > 1 else "x", kw=rng.choice(["preamble", "Preamble"]))
+
+
+def _S_nest_comment(rng, n, d):
+    d.comment(_nest(rng, n)[1:-1] if n > 1 else "x", kw=rng.choice(["comment", "Comment"]))
+
+
+def _S_many_pieces(rng, n, d):
+    ps = [rng.choice(["jan", "1990", "{x}", '"y"', "{a, b}", '"c = d"', "{}", '""', "k1"]) for _ in range(n)]
+    sep = rng.choice(["#", " # ", " #\n ", "# "])
+    d.entry(rng.choice(S_TYPES), "pieces%d" % n, _around(rng, sep.join(ps)))
+
+
+def _S_many_groups(rng, n, d):
+    g = rng.choice(["{x}", "{x} ", "{}", "{a}b", "{,}", "{\n}"])
+    val = ("{" + g * n + "}") if rng.random() < 0.6 else ('"' + g.replace(",", ";") * n + '"')
+    d.entry(rng.choice(S_TYPES), "groups%d" % n, _around(rng, val))
+
+
+def _S_many_fields(rng, n, d):
+    vals = ["{x}", '"y"', "2020", "jan # {z}", "{a, b = c}", '"{q}"', "{}"]
+    pre = rng.choice([" ", "\n  ", "\n", ""])
+    fs = [(pre, "f%d" % i, rng.choice(["", " "]), rng.choice(["", " "]), rng.choice(vals), "") for i in range(n)]
+    d.entry(rng.choice(S_TYPES), "fields%d" % n, fs, trailing=rng.random() < 0.5, close_ws=rng.choice(["", "\n"]))
+
+
+def _S_many_blocks(rng, n, d):
+    kinds = rng.choice([["entry"], ["entry", "entry", "string", "preamble", "comment", "freetext"], ["bare"], ["comment", "freetext"],
+                        ["string"], ["entry", "freetext"]])
+    for i in range(n):
+        k = rng.choice(kinds)
+        if k == "freetext" and d.free_last:
+            k = "comment"
+        if k == "entry":
+            d.entry(rng.choice(S_TYPES), "k%d" % i, [(" ", "a", " ", " ", rng.choice(["{b%d}" % i, '"c"', "%d" % i]), "")])
+        elif k == "bare":
+            d.entry(rng.choice(S_TYPES), "k%d" % i, [], bare=True)
+        elif k == "string":
+            d.string("s%d" % i, '"v%d"' % i)
+        elif k == "preamble":
+            d.preamble('"p%d"' % i)
+        elif k == "comment":
+            d.comment("c%d" % i)
+        else:
+            d.freetext("%% remark %d" % i)
+        if i < n - 1:
+            d.gap()
+
+
+def _S_long_value(rng, n, d):
+    r = rng.randrange(4)
+    if r == 0:
+        val = "{" + "a line, with = and \" in it\n" * n + "}"
+    elif r == 1:
+        val = '"' + "a line, with = in it\n" * n + '"'
+    elif r == 2:
+        val = rng.choice("123456789") + "".join(rng.choice("0123456789") for _ in range(n - 1))
+    else:
+        val = "{" + "word " * n + "}"
+    d.entry(rng.choice(S_TYPES), "long%d" % n, _around(rng, val))
+
+
+def _S_long_ws(rng, n, d):
+    unit = rng.choice([" ", "\n", "\t", "\r\n", " \n", "\x0c", "\n\n\t"])
+    ws = (unit * (n // len(unit) + 1))[:n] if unit != "\r\n" else unit * (n // 2)
+    hws = rng.choice([" ", "\t", " \t"]) * n
+    where = rng.randrange(9)
+    W = lambda k: ws if where == k else rng.choice(["", " "])          # noqa: E731
+    if where == 7:
+        d.string("ws%d" % n, "{v}", hws=rng.choice(["", hws]), w1=ws, w2=ws, w3=ws, w4=ws)
+    elif where == 8:
+        d.gap(ws)
+        d.small("w")
+        d.gap(ws)
+    else:
+        d.entry(rng.choice(S_TYPES), "ws%d" % n,
+                [(W(2), "title", W(3), W(4), "{x}", W(5)), (W(2), "year", W(3), W(4), "2020", W(5))],
+                hws=hws if where == 0 else "", w1=W(1), w2=W(1), trailing=where == 6, close_ws=W(6))
+
+
+def _S_long_names(rng, n, d):
+    name = "".join(rng.choice(G.KEYCH) for _ in range(n))
+    word = "".join(rng.choice("abcXYZ_019") for _ in range(n))
+    r = rng.randrange(4)
+    if r == 0:
+        d.entry("article", name, [(" ", "title", " ", " ", "{x}", "")])
+    elif r == 1:
+        d.entry("x" + word, "k", [(" ", "title", " ", " ", "{x}", "")])
+    elif r == 2:
+        d.entry("misc", "k", [(" ", name, " ", " ", "{x}", ""), (" ", "year", "", "", "1990", "")])
+    else:
+        d.string(name, '"v"')
+
+
+def _S_many_escapes(rng, n, d):
+    r = rng.randrange(4)
+    if r == 0:
+        val = "{" + "".join(rng.choice(["a\\{", "b\\}", 'c\\"', "d\\,", "e\\="]) for _ in range(n)) + "}"
+    elif r == 1:
+        val = '"' + "".join(rng.choice(['a\\"', "b\\{", "c\\}", "d"]) for _ in range(n)) + '"'
+    elif r == 2:
+        val = "{" + "a\\{" * n + "z" + "\\}b" * n + "}"
+    else:
+        val = "{" + 'a\\"' * n + "}"
+    d.entry(rng.choice(S_TYPES), "esc%d" % n, _around(rng, val))
+
+
+def _S_many_quotes(rng, n, d):
+    val = "{" + rng.choice(['a " b ', '"', '"x"', '", ']) * n + "}"
+    d.entry(rng.choice(S_TYPES), "quotes%d" % n, _around(rng, val))
+
+
+def _S_long_freetext(rng, n, d):
+    if d.free_last:
+        d.comment("sep")
+        d.gap("\n")
+    lines = [rng.choice(["%% line %d", "text %d, with = and } marks", "x%d", "", "{ %d"]) for _ in range(n)]
+    d.freetext("% first\n" + "\n".join((s % i) if "%d" in s else s for i, s in enumerate(lines)) + "\nlast")
+
+
+S_FAMILIES = [("nest_field", _S_nest_field), ("nest_in_concat", _S_nest_in_concat), ("nest_quoted", _S_nest_quoted),
+              ("nest_string", _S_nest_string), ("nest_preamble", _S_nest_preamble), ("nest_comment", _S_nest_comment),
+              ("many_pieces", _S_many_pieces), ("many_groups", _S_many_groups), ("many_fields", _S_many_fields),
+              ("many_blocks", _S_many_blocks), ("long_value", _S_long_value), ("long_ws", _S_long_ws), ("long_names", _S_long_names),
+              ("many_escapes", _S_many_escapes), ("many_quotes", _S_many_quotes), ("long_freetext", _S_long_freetext)]
+
+
+S_HEAVY = ("many_fields", "many_blocks", "long_value", "long_freetext")      # text grows by tens of characters per unit of n
+
+
+def gen_scaled_doc(rng, fam, n):
+    d = _Doc(rng, lead=rng.choice(["", "", "\n", " \n"]))
+    for j in range(rng.randint(0, 2)):
+        d.small("b%d" % j)
+        d.gap()
+    fam(rng, n, d)
+    for j in range(rng.randint(1, 2)):
+        d.gap()
+        d.small("a%d" % j)
+    d.gap(rng.choice(["", "\n", " "]))
+    return d.done()
+
+
+def gen_scaled(rng, tier):
+    """[(name, frames the caller is deep, text, items)], smaller sizes first"""
+    out = []
+    for fname, fam in S_FAMILIES:
+        if tier == "quick" and fname in S_HEAVY:
+            sizes = [rng.choice(S_SMALL[:7]), rng.choice(S_SMALL[7:]), rng.choice(S_BIG[:5])]
+        elif tier == "quick":
+            sizes = [rng.choice(S_SMALL[:7]), rng.choice(S_SMALL[7:]), rng.choice(S_BIG[:4]), rng.choice(S_BIG[4:])]
+        else:
+            sizes = S_SMALL + S_BIG + S_BIG + S_HUGE
+        for n in sizes:
+            text, items = gen_scaled_doc(rng, fam, n)
+            if not SC.doc_is_nodup(items):
+                continue
+            stack = rng.choice([0, 300, 600]) if n < 1000 else rng.choice([0, 0, 300])
+            out.append((n, "%s/%d" % (fname, n), stack, text, items))
+    out.sort(key=lambda t: t[0])
+    return [t[1:] for t in out]
+
+
+def _at_depth(k, fn):
+    """fn() called from k frames further down the stack (a caller that is itself deep in its own program)"""
+    return _at_depth(k - 1, fn) if k > 0 else fn()
+
+
+def scaled_record(text, stack):
+    """as splitcommon.base_record (model comparison through op 132), the parse made from `stack` extra frames"""
+    import bibtexparser
+    import enc
+    import implutil
+    r = implutil.guarded(lambda: _at_depth(stack, lambda: bibtexparser.parse_string(text, parse_stack=[])))
+    rec = {"sx_in": [132, enc.enc_str(text)], "sx_out": SC.enc_result(r), "summary": SC.summary(r)}
+    if not SC.lower_ok(text):
+        rec["skip"] = True
+    return rec, r
